@@ -84,5 +84,8 @@ def petl_frame(exc):
 def exc_fail(prefix, exc):
     """A Fail for an exception that escaped petl where the property says the call is total."""
     where = petl_frame(exc) or "outside-petl"
-    return Fail("%s/exc:%s@%s" % (prefix, type(exc).__name__, where),
-                "%s: %s" % (type(exc).__name__, str(exc)[:300]))
+    try:
+        msg = str(exc)[:300]
+    except Exception:  # an exception class whose __str__ itself fails
+        msg = repr(exc.args)[:300]
+    return Fail("%s/exc:%s@%s" % (prefix, type(exc).__name__, where), "%s: %s" % (type(exc).__name__, msg))
